@@ -366,24 +366,33 @@ def radix_parser(ctx, facts, rp, clause, cfg):
     cands = [strip_refs(x) for x in r[2]] if r[0] == "phi" else [r]
     nones = [c for c in cands if c[0] == "agg" and c[1].get("variant") == "None"]
     vals = [c for c in cands if c not in nones]
-    ctx.check(len(nones) >= 1 and len(vals) == 1, clause + ".radix-results", "the parser returns None or the one valuation (%s)" % cfg, "results: %s" % [show_expr(c)[:60] for c in cands], where=rp.where(), fn=rp.key, nontrivial=True)
+    is_int_parse = lambda y: y[0] == "call" and y[1] and "from_str_radix" in y[1]["path"]
+    is_fold = lambda y: y[0] == "call" and y[1] and re.search(r"Iterator(>)?::fold$", y[1]["path"]) is not None
+    unknown = [c for c in vals if not expr_mentions(c, is_int_parse) and not expr_mentions(c, is_fold)]
+    ctx.check(len(nones) >= 1 and vals and not unknown, clause + ".radix-results", "the parser returns None, the parsed integer as a double, or the digit fold (%s)" % cfg, "results: %s" % [show_expr(c)[:60] for c in cands], where=rp.where(), fn=rp.key, nontrivial=True)
     # ---- the integer path: value as f64, failure falls through to the fold (or None)
     for c in vals:
+        if not expr_mentions(c, is_int_parse):
+            continue
         spine = []
         x = c
         while x[0] == "call" and x[1] and re.search(r"^std::(option::Option|result::Result)::<.*>::(or_else|ok|map|or|and_then)$", x[1]["path"]):
             spine.append((x[1]["path"].rsplit("::", 1)[1], x))
             x = strip_refs(x[2][0])
         names = [n for n, _ in spine]
-        if ints:
-            ctx.check(x[0] == "call" and x[1] and "from_str_radix" in x[1]["path"] and "map" in names and "ok" in names, clause + ".radix-int-path", "value = from_str_radix(..).map(as f64).ok() [or the fold] (%s)" % cfg,
-                      "the valuation is %s" % show_expr(c)[:160], where=rp.where(), fn=rp.key, nontrivial=True)
-            for n, e in spine:
-                if n == "map":
-                    cl = strip_refs(e[2][1])
-                    if cl[0] == "agg" and cl[1].get("closure"):
-                        rr = strip_refs(facts.body(cl[1]["closure"]).trace(0))
-                        ctx.check(rr[0] == "cast" and rr[1] == "IntToFloat" and strip_refs(rr[2]) == ("arg", 2), clause + ".radix-int-cast", "the parsed integer is converted with `as f64` (%s)" % cfg, "the parsed integer becomes %s" % show_expr(rr), where=rp.where(), fn=rp.key, nontrivial=True)
+        combinator_form = is_int_parse(x) and "map" in names and "ok" in names
+        direct_form = False
+        if c[0] == "agg" and c[1].get("variant") == "Some" and c[2]:
+            v = strip_refs(c[2][0])
+            direct_form = v[0] == "cast" and v[1] == "IntToFloat" and is_int_parse(strip_payload(v[2]))
+        ctx.check(combinator_form or direct_form, clause + ".radix-int-path", "value = the integer parsed by from_str_radix, converted with `as f64` (%s)" % cfg,
+                  "the valuation is %s" % show_expr(c)[:160], where=rp.where(), fn=rp.key, nontrivial=True)
+        for n, e in spine:
+            if n == "map":
+                cl = strip_refs(e[2][1])
+                if cl[0] == "agg" and cl[1].get("closure"):
+                    rr = strip_refs(facts.body(cl[1]["closure"]).trace(0))
+                    ctx.check(rr[0] == "cast" and rr[1] == "IntToFloat" and strip_refs(rr[2]) == ("arg", 2), clause + ".radix-int-cast", "the parsed integer is converted with `as f64` (%s)" % cfg, "the parsed integer becomes %s" % show_expr(rr), where=rp.where(), fn=rp.key, nontrivial=True)
     # ---- the fold: from 0, acc·radix + digit
     for (b, bi, t) in folds:
         it = strip_refs(b.xtrace(t["args"][0]))
